@@ -283,3 +283,110 @@ def gen_stmt_text(rng):
             bad = True
         out.append(s + "\n")
     return "".join(out), bad
+
+
+# ---- call sequences on ONE object ----------------------------------------------------------------
+#
+# A "seq" case is {"kind": "seq", "imports": [...], "via": ..., "steps": [step, ...]} where a step is one of
+#   {"op": "pp", "params": P, "align_kind": k}          S.pretty_print(P)
+#   {"op": "stmts", "sep_from": b}                       S.get_statements(separate_from_imports=b)
+#   {"op": "repr"}                                        repr(S)
+#   {"op": "statements"}                                  S.statements / S.imports (cached attributes)
+#   {"op": "stmt_pp", "sep_from": b, "idx": n, "calls": [{"params": P, "col": c|None, "fs": n}, ...]}
+#                                                         st = S.get_statements(b)[idx]; st.pretty_print(...) for every call, str(st)
+#   {"op": "with"|"union", "other": [imports], "params": P}     S.with_imports(O) / S | O, then pretty_print(P)
+#   {"op": "without", "remove": [imports], "params": P}         S.without_imports(R), then pretty_print(P)
+# All steps are applied, in order, to the SAME ImportSet object; the harness repeats every step on a fresh,
+# equal object and requires equal results.
+
+def _flip(p, rng):
+    """a configuration that differs from `p` in the way most likely to expose shared state"""
+    q = dict(p)
+    r = rng.random()
+    if r < 0.55:
+        q["sep_from"] = not p["sep_from"]
+    if r > 0.35 or rng.random() < 0.3:
+        g = gen_params(rng)
+        for k in rng.sample(["width", "align", "from_spaces", "hanging", "indent", "align_future"], rng.randint(1, 3)):
+            q[k] = g[k]
+    return q
+
+
+def gen_seq_case(rng):
+    base = gen_case(rng)
+    imps = base["imports"]
+    # sequences are about shared state, not about conflicts: keep the set non-conflicting
+    seen, keep = {}, []
+    for i in imps:
+        ln = None if i["name"] == "*" else (i["as"] if i["as"] is not None else i["name"])
+        key = (i["k"], i["mod"], i["lvl"], i["name"])
+        if ln is not None and seen.get(ln, key) != key:
+            continue
+        if ln is not None:
+            seen[ln] = key
+        keep.append(i)
+    imps = keep
+    # make sure plain and from imports with interleaving names are present most of the time
+    if rng.random() < 0.7:
+        pool = []
+        imps.append(dict(k="imp", mod="", lvl=0, name=rng.choice(["zz", "mm.x", "zlib", "b"]) + ident(rng, 1, 3), **{"as": None}))
+        imps.append(dict(k="from", mod=rng.choice(["aa", "json", "m", "c"]) + ident(rng, 1, 3), lvl=0, name="q" + ident(rng, 1, 3), **{"as": None}))
+    p = base["params"]
+    steps = []
+    nsteps = rng.choice([2, 2, 3, 3, 4, 5, 6])
+    while len(steps) < nsteps:
+        r = rng.random()
+        if r < 0.5:
+            p = _flip(p, rng) if steps else p
+            steps.append(dict(op="pp", params=p, align_kind=rng.choice(["tuple", "list", "set"])))
+        elif r < 0.6:
+            steps.append(dict(op="stmts", sep_from=rng.random() < 0.5))
+        elif r < 0.68:
+            steps.append(dict(op="repr"))
+        elif r < 0.73:
+            steps.append(dict(op="statements"))
+        elif r < 0.83:
+            calls = []
+            for _ in range(rng.choice([2, 2, 3])):
+                q = gen_params(rng)
+                calls.append(dict(params=q, col=rng.choice([None, None, rng.randint(0, 40)]), fs=rng.choice([1, 1, 2, 3, 5])))
+            steps.append(dict(op="stmt_pp", sep_from=rng.random() < 0.5, idx=rng.randint(0, 30), calls=calls))
+        elif r < 0.93:
+            pool = []
+            other = [gen_import(rng, pool) for _ in range(rng.randint(1, 3))]
+            if imps and rng.random() < 0.5:
+                other.append(dict(rng.choice(imps)))
+            steps.append(dict(op=rng.choice(["with", "union"]), other=other, params=_flip(p, rng)))
+        else:
+            cand = [i for i in imps if i["name"] != "*"]
+            rem = rng.sample(cand, min(len(cand), rng.randint(1, 3))) if cand else []
+            if rng.random() < 0.3:
+                rem.append(dict(k="imp", mod="", lvl=0, name="absent_" + ident(rng, 1, 3), **{"as": None}))
+            if rem:
+                steps.append(dict(op="without", remove=rem, params=_flip(p, rng)))
+    return dict(kind="seq", imports=imps, via=rng.choice(["split", "split", "text"]), steps=steps)
+
+
+def small_seq_cases(rng, full):
+    """small scope for sequences: every set of <= 3 imports of SMALL_ALPHABET x every ordered pair of
+    separate_from_imports values x two alignment settings, with repr() in between for half of them"""
+    out = []
+    sets, _ = small_scope()
+    for s in sets:
+        if not s:
+            continue
+        for a, b in [(False, True), (True, False), (False, False), (True, True)]:
+            for al in (False, 12):
+                imps = [dict(SMALL_ALPHABET[i]) for i in s]
+                p1 = dict(width=rng.choice([10, 24, None]), align=al, from_spaces=rng.choice([1, 3]), hanging=rng.choice(GRID_HANG),
+                          indent=4, sep_from=a, align_future=False)
+                p2 = dict(p1, sep_from=b, width=rng.choice([10, 17, 31]), align=rng.choice([al, True]))
+                steps = [dict(op="pp", params=p1, align_kind="tuple")]
+                if rng.random() < 0.5:
+                    steps.append(dict(op="repr"))
+                steps.append(dict(op="pp", params=p2, align_kind="tuple"))
+                steps.append(dict(op="stmts", sep_from=a))
+                out.append(dict(kind="seq", imports=imps, via="split", steps=steps))
+    if not full:
+        out = rng.sample(out, len(out) // 8)
+    return out
